@@ -366,6 +366,10 @@ pub fn gen_p2(d: &mut Draw, o: &P2Opts) -> P2Project {
     if o.ensure_wildcard {
         ensure_wildcard(d, &mut root);
     }
+    let single_def = o.single_def_per_mille > 0 && d.below(1000) < o.single_def_per_mille;
+    if single_def {
+        split_files(d, &mut root, &o.gopts);
+    }
 
     // ---------------------------------------------------------------- sources
     let sources = if o.multi_sources {
@@ -425,6 +429,9 @@ pub fn gen_p2(d: &mut Draw, o: &P2Opts) -> P2Project {
         prj.cfg = TomlCfg::basic(name);
         prj.cfg.incremental = false;
         rename_items(&mut prj, &format!("D{i}"));
+        if single_def {
+            split_files(d, &mut prj, &gopts);
+        }
         let key = if d.chance(1, 3) { ["liba", "libb"][i].to_string() } else { name.to_string() };
         let dir = if d.chance(1, 3) { format!("vendor/{name}") } else { format!("../{name}") };
         deps.push(Dep {
@@ -437,30 +444,28 @@ pub fn gen_p2(d: &mut Draw, o: &P2Opts) -> P2Project {
         });
     }
     let mut uid = 0u32;
+    let mk_extra = |rel: String, name: &str, b: Body| -> Extra {
+        Extra {
+            rel,
+            item_refs: b.items.clone(),
+            link_refs: b.links.clone(),
+            std_refs: BTreeSet::new(),
+            wildcard: b.wildcard,
+            clocked: b.clocked,
+            defines: vec![name.to_string()],
+            text: finish_module(name, b),
+        }
+    };
     if deps.len() == 2 && d.chance(1, 2) {
         // dep 0 uses dep 1; dep 1 may then be invisible from the root
         let key1 = if d.chance(1, 2) { deps[1].key.clone() } else { "inner".to_string() };
-        let mut b = Body {
-            text: String::new(),
-            refs: BTreeSet::new(),
-            wildcard: false,
-            clocked: false,
-            imported: false,
-        };
+        let mut b = Body::default();
         let n = d.usize_in(1, 2);
         let p1 = deps[1].prj.clone();
         add_refs(d, &p1, &Owner::Dep(1), &format!("{key1}::"), n, &mut uid, &mut b);
-        if !b.refs.is_empty() {
+        if !b.items.is_empty() {
             let rel = ["src/zz_link.veryl", "src/a_link.veryl"][d.weighted(&[1, 1])].to_string();
-            let wildcard = b.wildcard;
-            let refs = b.refs.clone();
-            deps[0].extra.push(Extra {
-                rel,
-                text: finish_module("D0Link", b),
-                refs,
-                wildcard,
-                defines: vec!["D0Link".into()],
-            });
+            deps[0].extra.push(mk_extra(rel, "D0Link", b));
             deps[0].deps.push((key1, 1));
             if d.chance(1, 2) {
                 deps[1].direct = false;
@@ -473,18 +478,26 @@ pub fn gen_p2(d: &mut Draw, o: &P2Opts) -> P2Project {
     let direct: Vec<usize> = (0..deps.len()).filter(|i| deps[*i].direct).collect();
     let n_users = if direct.is_empty() { d.weighted(&[3, 1]) } else { d.usize_in(1, 2) };
     for un in 0..n_users {
-        let mut b = Body {
-            text: String::new(),
-            refs: BTreeSet::new(),
-            wildcard: false,
-            clocked: false,
-            imported: false,
-        };
+        let mut b = Body::default();
         for di in &direct {
             if un == 0 || d.chance(1, 2) {
                 let n = d.usize_in(1, 3);
                 let pd = deps[*di].prj.clone();
                 add_refs(d, &pd, &Owner::Dep(*di), &format!("{}::", deps[*di].key), n, &mut uid, &mut b);
+                // the module of this dependency that uses the other one
+                for (ei, e) in deps[*di].extra.iter().enumerate() {
+                    if d.chance(2, 3) {
+                        uid += 1;
+                        b.text.push_str(&format!("    inst _pl{uid}: {}::{}", deps[*di].key, e.defines[0]));
+                        if e.clocked {
+                            b.clocked = true;
+                            b.text.push_str(" (\n        clk: clk,\n        rst: rst,\n    );\n");
+                        } else {
+                            b.text.push_str(";\n");
+                        }
+                        b.links.insert((*di, ei));
+                    }
+                }
             }
         }
         if d.chance(2, 3) {
@@ -492,37 +505,28 @@ pub fn gen_p2(d: &mut Draw, o: &P2Opts) -> P2Project {
             let pr = root.clone();
             add_refs(d, &pr, &Owner::Root, "", n, &mut uid, &mut b);
         }
-        if b.refs.is_empty() {
+        if b.items.is_empty() && b.links.is_empty() {
             continue;
         }
         let dir = dirs[d.below_usize(dirs.len())].clone();
         let name = ["aa_user", "zz_user", "sub/user", "m_user"][d.weighted(&[2, 2, 1, 1])];
         let rel = norm_join(&dir, &format!("{name}{un}.veryl"));
-        let mname = format!("P2User{un}");
-        let wildcard = b.wildcard;
-        let refs = b.refs.clone();
-        extra.push(Extra {
-            rel,
-            text: finish_module(&mname, b),
-            refs,
-            wildcard,
-            defines: vec![mname],
-        });
+        extra.push(mk_extra(rel, &format!("P2User{un}"), b));
     }
     let mut std_user = false;
     if !root.cfg.exclude_std && d.chance(2, 3) {
         std_user = true;
         let dir = dirs[d.below_usize(dirs.len())].clone();
-        let mut refs = BTreeSet::new();
-        refs.insert(FileId {
-            owner: Owner::Std,
-            rel: "ram/ram.veryl".into(),
-        });
+        let mut std_refs = BTreeSet::new();
+        std_refs.insert("ram/ram.veryl".to_string());
         extra.push(Extra {
             rel: norm_join(&dir, "a_std_user.veryl"),
             text: STD_USER.to_string(),
-            refs,
+            item_refs: BTreeSet::new(),
+            link_refs: BTreeSet::new(),
+            std_refs,
             wildcard: false,
+            clocked: false,
             defines: vec!["P2StdUser".into()],
         });
     }
@@ -535,10 +539,34 @@ pub fn gen_p2(d: &mut Draw, o: &P2Opts) -> P2Project {
         excluded_collisions: 0,
         forced_collision: None,
         std_user,
+        single_def,
     };
     let force = o.collide_per_mille > 0 && d.below(1000) < o.collide_per_mille;
     p.settle_collisions(d, force);
     p
+}
+
+/// One definition per file: every further item of a file moves to a new file.
+/// Items only reference lower ids, so the file graph stays acyclic.
+fn split_files(d: &mut Draw, p: &mut Project, o: &GenOpts) {
+    let n = p.files.len();
+    for fi in 0..n {
+        if !p.files[fi].alive || p.files[fi].is_example() {
+            continue;
+        }
+        while p.files[fi].items.len() > 1 {
+            let it = p.files[fi].items.pop().unwrap();
+            let rel = vproj::genp::draw_file_name(d, p, o);
+            p.files.push(SrcFile {
+                rel,
+                items: vec![it],
+                alive: true,
+                syntax_err: None,
+                loose: false,
+                header: None,
+            });
+        }
+    }
 }
 
 /// Make sure some module of the project has an `import Pkg::*`.
